@@ -1371,6 +1371,13 @@ func (c *Canonicalizer) NormalizeOperand(v ssa.Value, context ssa.Instruction) s
 			return fmt.Sprintf("const(%s:nil)", sanitizeType(operand.Type()))
 		}
 		if operand.Value.Kind() == constant.String {
+			// A long literal is written once per use: named by its digest and length, the IR still
+			// tells two literals apart and stays proportional to the source (a 100 KB constant used
+			// a thousand times made the keep-all rendering 100 MB).
+			if sv := constant.StringVal(operand.Value); len(sv) > MaxSCEVTextLen {
+				sum := sha256.Sum256([]byte(sv))
+				return fmt.Sprintf("const(<string#%x/%d>)", sum[:12], len(sv))
+			}
 			return fmt.Sprintf("const(%q)", constant.StringVal(operand.Value))
 		}
 		// A numeric constant of a type other than the default one for its kind (int8(100),
